@@ -105,20 +105,6 @@ theorem bfs_fuel {g : DMG} {src dst : Nat} (n : Nat) (es : List Edge) :
     exact ⟨c, by omega, hch, rfl⟩
 
 
-/-- the edges `traverseSegment` adds for one segment (before `AddEdge`'s overwriting) -/
-def segTuples (kind : Kind) (is : Nat × Seg) : List GEdge :=
-  match lastIA is.2, firstIA is.2 with
-  | some l, some f =>
-    if kind = .core then [⟨vIA l, vIA f, is.1, ⟨is.2, .core, 0, 0⟩⟩]
-    else (indexedFrom 0 is.2.ents).reverse.flatMap (entryTuples is.2 kind is.1 l)
-  | _, _ => []
-
-/-- all edges handed to `AddEdge` by `newDMG`, in order -/
-def allTuples (ups cores downs : List Seg) : List GEdge :=
-  (indexedFrom 0 ups).flatMap (segTuples .up) ++
-  (indexedFrom ups.length cores).flatMap (segTuples .core) ++
-  (indexedFrom (ups.length + cores.length) downs).flatMap (segTuples .down)
-
 theorem traverseSegment_eq {g g' : DMG} {s kind i} (h : traverseSegment g s kind i = some g') :
     g' = (segTuples kind (i, s)).foldl addEdge g := by
   unfold traverseSegment at h
@@ -176,9 +162,6 @@ theorem mem_foldl_addEdge {l g : DMG} {x : GEdge} (h : x ∈ l.foldl addEdge g) 
       · exact .inl h
       · exact .inr (h ▸ List.mem_cons_self)
     · exact .inr (List.mem_cons_of_mem _ h)
-
-/-- no two edges handed to `AddEdge` have the same (source, target, segment) key -/
-def NoCollision (l : DMG) : Prop := l.Pairwise fun a b => a.sameKey b = false
 
 theorem foldl_addEdge_noCollision {l g : DMG} (h : NoCollision (g ++ l)) :
     l.foldl addEdge g = g ++ l := by
